@@ -1548,26 +1548,106 @@ as_struct_type() {
  */
 void CPPStructType::
 get_virtual_funcs(VFunctions &funcs) const {
+  VirtualFuncs vfuncs;
+  get_virtual_funcs(vfuncs);
+
+  for (const VirtualFunc &vfunc : vfuncs) {
+    funcs.push_back(vfunc._inst);
+  }
+}
+
+/**
+ * The implementation of the above, which keeps track of where each of the
+ * functions comes from.
+ */
+void CPPStructType::
+get_virtual_funcs(VirtualFuncs &funcs) const {
   // First, get all the virtual funcs from our parents.
   Derivation::const_iterator di;
   for (di = _derivation.begin(); di != _derivation.end(); ++di) {
-    VFunctions vf;
+    VirtualFuncs vf;
     CPPStructType *base = (*di)._base->as_struct_type();
     if (base != nullptr) {
       base->get_virtual_funcs(vf);
+      if ((*di)._is_virtual) {
+        for (VirtualFunc &vfunc : vf) {
+          if (vfunc._virtual_root == nullptr) {
+            vfunc._virtual_root = base;
+          }
+        }
+      }
       funcs.splice(funcs.end(), vf);
     }
   }
 
-  // Now look for matching functions in this class that we can now infer are
-  // virtual.
-  VFunctions::iterator vfi, vfnext;
+  VirtualFuncs::iterator vfi, vfnext;
+
+  // There is only one sub-object of a virtual base class, no matter along how
+  // many paths we inherit from it.  A function therein that was overridden
+  // along one of these paths is overridden for good, even though it is still
+  // on the list that we got along another path.
   vfi = funcs.begin();
   while (vfi != funcs.end()) {
     vfnext = vfi;
     ++vfnext;
 
-    CPPInstance *inst = (*vfi);
+    const VirtualFunc &vfunc = (*vfi);
+    if (vfunc._virtual_root != nullptr) {
+      CPPFunctionType *base_ftype = vfunc._inst->_type->as_function_type();
+      assert(base_ftype != nullptr);
+
+      bool overridden = false;
+      bool is_before = true;
+      VirtualFuncs::iterator oi;
+      for (oi = funcs.begin(); oi != funcs.end() && !overridden; ++oi) {
+        const VirtualFunc &other = (*oi);
+        if (oi == vfi) {
+          is_before = false;
+          continue;
+        }
+        if (other._inst == vfunc._inst) {
+          // The same function, which we need to list only once if it is in
+          // the same sub-object.
+          overridden = (is_before &&
+                        other._virtual_root == vfunc._virtual_root);
+          continue;
+        }
+
+        // A function of a class that shares this virtual base class
+        // overrides the matching functions in all of its sub-objects.
+        std::vector<CPPStructType *> vbases;
+        collect_virtual_bases(other._owner, vbases);
+        if (std::find(vbases.begin(), vbases.end(),
+                      vfunc._virtual_root) == vbases.end()) {
+          continue;
+        }
+
+        CPPFunctionType *new_ftype = other._inst->_type->as_function_type();
+        assert(new_ftype != nullptr);
+        if ((base_ftype->_flags & CPPFunctionType::F_destructor) != 0) {
+          overridden = ((new_ftype->_flags & CPPFunctionType::F_destructor) != 0);
+        } else {
+          overridden =
+            (other._inst->get_local_name() == vfunc._inst->get_local_name() &&
+             new_ftype->match_virtual_override(*base_ftype));
+        }
+      }
+
+      if (overridden) {
+        funcs.erase(vfi);
+      }
+    }
+    vfi = vfnext;
+  }
+
+  // Now look for matching functions in this class that we can now infer are
+  // virtual.
+  vfi = funcs.begin();
+  while (vfi != funcs.end()) {
+    vfnext = vfi;
+    ++vfnext;
+
+    CPPInstance *inst = (*vfi)._inst;
     assert(inst->_type != nullptr);
     CPPFunctionType *base_ftype = inst->_type->as_function_type();
     assert(base_ftype != nullptr);
@@ -1639,7 +1719,11 @@ get_virtual_funcs(VFunctions &funcs) const {
       if ((inst->_storage_class & CPPInstance::SC_virtual) != 0 &&
           (inst->_storage_class & CPPInstance::SC_deleted) == 0) {
         // Here's a virtual function.
-        funcs.push_back(inst);
+        VirtualFunc vfunc;
+        vfunc._inst = inst;
+        vfunc._owner = this;
+        vfunc._virtual_root = nullptr;
+        funcs.push_back(vfunc);
       }
     }
   }
